@@ -120,21 +120,55 @@ def width_flow(ctx, res, rule, prop):
     if not rows:
         raise BrokenAnalysis("no width rows for %s" % prop)
     sources = set()
+    missing = []
     for r in rows:
         rec = prog.record(r["rec"])
         if rec is None:
             raise BrokenAnalysis("record %s vanished (T-width)" % r["rec"])
         fld = [f for f in rec["fields"] if f["name"] == r["field"]]
         if not fld:
-            raise BrokenAnalysis("field %s.%s vanished (T-width)" % (r["rec"], r["field"]))
+            if r["rec"] == "mtbl_metadata":
+                raise BrokenAnalysis("trailer field %s.%s vanished (T-width)" % (r["rec"], r["field"]))
+            # an internal cursor that was removed or renamed: a field that does not exist cannot be narrow; whatever replaced it
+            # joins the wide set through the backward step below when it feeds a trailer field or a 64-bit encoder
+            missing.append("%s.%s" % (r["rec"], r["field"]))
+            continue
         w = _int_width(fld[0].get("ct") or fld[0].get("t"))
         res.check(w is not None and w >= 64, rule, "%s.%s:declared-width" % (r["rec"], r["field"]),
                   "declared %s: 64 bits" % fld[0].get("t"),
                   "%s.%s is declared %s (%s bits): %s beyond 2^32 are truncated" % (r["rec"], r["field"], fld[0].get("t"), w, r["what"]),
                   "%s:%s" % (rec["file"].replace(prog.repo + "/", ""), rec["line"]))
         sources.add((r["rec"], r["field"]))
+    if len(missing) > max(1, len(rows) // 3):
+        raise BrokenAnalysis("T-width: %d of %d listed fields vanished (%s)" % (len(missing), len(rows), ", ".join(missing)))
+    if missing:
+        res.notes.append("T-width fields no longer present (skipped): %s" % ", ".join(missing))
     funcs = all_funcs(prog)
     sinks = set(e["name"] for e in ctx.spec("t_codec")["functions"].values())   # serialisers: their bit routing is C16's business
+    # backward step: a struct field declared 64 bits wide whose value is stored into a format-wide field joins the sources
+    # (the writer's offset cursor under whatever name: it is what index_block_offset and the index entries are made of)
+    grew = True
+    while grew:
+        grew = False
+        for f in funcs:
+            for n in walk(f.body):
+                if n.get("k") in ("BinaryOperator", "CompoundAssignOperator") and n.get("op") in MR.STORE_OPS:
+                    lhs = strip(n["kids"][0])
+                    if lhs is None or lhs["k"] != "MemberExpr" or (lhs.get("rec"), lhs.get("field")) not in sources:
+                        continue
+                    stack = [n["kids"][1]]
+                    while stack:
+                        x = stack.pop()
+                        if x is None:
+                            continue
+                        if x.get("k") == "CallExpr" or (x.get("k") == "BinaryOperator" and x.get("op") in ("==", "!=", "<", "<=", ">", ">=", "&&", "||", "%", "&")):
+                            continue
+                        if x.get("k") == "MemberExpr" and x.get("rec") and (x.get("rec"), x.get("field")) not in sources \
+                                and _int_width(x.get("ct") or x.get("t")) is not None and _int_width(x.get("ct") or x.get("t")) >= 64 \
+                                and x.get("rec") in ("mtbl_writer", "mtbl_reader", "reader_iter"):
+                            sources.add((x.get("rec"), x.get("field")))
+                            grew = True
+                        stack.extend(kids(x))
     byname = {}
     for f in funcs:
         byname.setdefault(f.name, []).append(f)
